@@ -33,6 +33,16 @@ Theorem C17_lines_are_cut : forall k e, wf e ->
 Proof. intros k e H. exact (session_cut k [] e BufInv_nil H). Qed.
 Print Assumptions C17_lines_are_cut.
 
+(* The title statement as such: two sessions over the same byte stream, fragmented into packets differently and with
+   "no data yet" results and selector timeouts placed differently, return the same lines once both have reached READ_EOF. *)
+Theorem C17_fragmentation_independent : forall k1 k2 e1 e2, wf e1 -> wf e2 ->
+  data_of (reads e1) = data_of (reads e2) ->
+  match session k1 [] e1, session k2 [] e2 with
+  | (rs1, _, _), (rs2, _, _) => last rs1 REmpty = REof -> last rs2 REmpty = REof -> lines_of rs1 = lines_of rs2
+  end.
+Proof. exact session_fragmentation_independent. Qed.
+Print Assumptions C17_fragmentation_independent.
+
 (* non-vacuity: hypotheses are met by a concrete fragmented stream with a timeout *)
 Example C17_nonvacuous :
   let e := {| reads := [Chunk [71;49]; Again; Chunk [32]; Chunk [88;10;71;50;10;77]; Chunk [53]];
